@@ -5,7 +5,7 @@
     the stream by itself after the n-th datum.  The protocol part (which phases (sk, us) there
     are, what the stack looks like in each) is [Inv_take.inv_reach]; this file adds the counts. *)
 
-From CB Require Import ProofLib Spec Flow Inv_take.
+From CB Require Import ProofLib Spec Flow Inv_take Inv_take_end.
 
 Set Implicit Arguments.
 
@@ -150,6 +150,22 @@ Section MonitorMonotone.
     - destruct u as [|e|]; [congruence| |]; cbn; unfold upd; now rewrite Nat.eqb_refl.
   Qed.
 
+  (** the end of the source, passed on to the sink *)
+  Lemma us_call_dn m s d i : us (mon_call_upd m (CDn s d)) i = us m i.
+  Proof.
+    destruct d; cbn;
+      repeat match goal with |- context [match ?x with _ => _ end] => destruct x end; reflexivity.
+  Qed.
+
+  Lemma settle_src_end (o : op) m d d' (k : Fr o) :
+    (d = DT \/ exists e, d = DE e) ->
+    us (ms_settle p o (mon_input p m (IDn 0 d)) [] (ACall (CDn 0 d') k)) 0 = UEnded.
+  Proof.
+    intros Hd. unfold ms_settle. cbn [map fold_left]. unfold mon_event at 1.
+    rewrite us_add_viols. unfold set_cstack. cbn [us set]. rewrite us_call_dn.
+    destruct Hd as [-> | [e ->]]; cbn; unfold upd; reflexivity.
+  Qed.
+
   (** the subscription of the upstream *)
   Lemma settle_sub_subd (o : op) m inp (k : Fr o) i :
     us (ms_settle p o (mon_input p m inp) [] (ACall (CSub i) k)) i = USubd.
@@ -176,8 +192,9 @@ Section TakeFlow.
     f_eq : tk_taken (cst c) < max ->
            pout (trace c) + dout (trace c) = pin (trace c) + din (trace c);
     f_greet : hout (trace c) <= hin (trace c);
-    (* [tk_end] is set by a stop of the sink or by the n-th delivery *)
-    f_full : tk_end (cst c) = true -> tk_taken (cst c) = max \/ sk (ms c) 0 = SDisposed;
+    (* [tk_end] is set by a stop of the sink, by the n-th delivery, or by the end of the source *)
+    f_full : tk_end (cst c) = true ->
+             tk_taken (cst c) = max \/ sk (ms c) 0 = SDisposed \/ us (ms c) 0 = UEnded;
     f_subd : subd (ms c) 0 = true -> us (ms c) 0 <> UNone;
   }.
 
@@ -214,6 +231,17 @@ Section TakeFlow.
            | H : ?X = hout (trace ?c) |- context [hout (trace ?c)] => rewrite <- H
            end; cbn.
 
+  (** the three reasons for [tk_end] carry over a step: the quota stays full, a sink that disposed stays
+      disposed, and after the end of the source only do-nothing returns are enabled
+      ([take_after_source_end_quiet]) *)
+  Ltac full3 Ifull Hend Hq Hue :=
+    let E := fresh "E" in
+    destruct (Ifull Hend) as [E|[E|E]];
+    [ now left
+    | right; left; auto
+    | first [ exfalso; destruct (Hq E) as [Hmv _]; discriminate
+            | right; right; exact (Hue E) ] ].
+
   Theorem finv_reach (c : cfg o) : reach p g_std c -> FInv c.
   Proof.
     induction 1 as [|c m Hr IH He].
@@ -226,6 +254,12 @@ Section TakeFlow.
     pose proof (@step_subd p o c m 0) as Hsubd.
     pose proof (i_dead HI') as Hd'.
     destruct IH as [Ile Ieq Igr Ifull Isubd].
+    pose proof (fun E => take_after_source_end_quiet Hns Hresub Hnonest Hc14 Hmax m Hr E He) as Hq.
+    assert (Hue : us (ms c) 0 = UEnded -> us (ms (step p c m)) 0 = UEnded).
+    { intros E. destruct (Hq E) as [-> (k0 & cl0 & rest0 & Hst0 & Hres0)].
+      destruct (step_ret p c Hlive Hst0 (Hres0 (cst c))) as (_ & _ & Hm0 & _).
+      rewrite Hm0. unfold ms_settle. cbn.
+      destruct (tl (cstack (ms c))); cbn; rewrite ?us_add_viols; exact E. }
     remember (pin (trace c)) as Pi eqn:EPi. remember (pout (trace c)) as Po eqn:EPo.
     remember (din (trace c)) as Di eqn:EDi. remember (dout (trace c)) as Do eqn:EDo.
     remember (hin (trace c)) as Gi eqn:EGi. remember (hout (trace c)) as Go eqn:EGo.
@@ -254,7 +288,7 @@ Section TakeFlow.
         * counts Htr. lia.
         * rewrite Hc. intros Hlt. counts Htr. lia.
         * counts Htr. lia.
-        * rewrite Hc. intros Hend. destruct (Ifull Hend) as [E|E]; [now left | right; auto].
+        * rewrite Hc. intros Hend. full3 Ifull Hend Hq Hue.
         * rewrite Hsubd by (intros aux'; discriminate). auto.
       + destruct u as [|e|]; cbn -[Nat.ltb] in Hh; split_ifs Hh; inj Hh s' os a;
           try discriminate.
@@ -263,7 +297,7 @@ Section TakeFlow.
           -- counts Htr. lia.
           -- rewrite Hc. intros Hlt. counts Htr. lia.
           -- counts Htr. lia.
-          -- rewrite Hc. intros Hend. destruct (Ifull Hend) as [E|E]; [now left | right; auto].
+          -- rewrite Hc. intros Hend. full3 Ifull Hend Hq Hue.
           -- rewrite Hsubd by (intros aux'; discriminate). auto.
         * (* Pull swallowed: the quota is full *)
           match goal with H : (_ <? _) = false |- _ => apply Nat.ltb_ge in H end.
@@ -271,28 +305,28 @@ Section TakeFlow.
           -- counts Htr. lia.
           -- rewrite Hc. intros Hlt. exfalso. lia.
           -- counts Htr. lia.
-          -- rewrite Hc. intros Hend. destruct (Ifull Hend) as [E|E]; [now left | right; auto].
+          -- rewrite Hc. intros Hend. full3 Ifull Hend Hq Hue.
           -- rewrite Hsubd by (intros aux'; discriminate). auto.
         * (* Error from the sink *)
           constructor.
           -- counts Htr. lia.
           -- rewrite Hc. cbn. intros Hlt. counts Htr. lia.
           -- counts Htr. lia.
-          -- intros _. right. rewrite Hm. apply settle_stop_disposed. discriminate.
+          -- intros _. right. left. rewrite Hm. apply settle_stop_disposed. discriminate.
           -- rewrite Hsubd by (intros aux'; discriminate). auto.
         * (* Terminate from the sink *)
           constructor.
           -- counts Htr. lia.
           -- rewrite Hc. cbn. intros Hlt. counts Htr. lia.
           -- counts Htr. lia.
-          -- intros _. right. rewrite Hm. apply settle_stop_disposed. discriminate.
+          -- intros _. right. left. rewrite Hm. apply settle_stop_disposed. discriminate.
           -- rewrite Hsubd by (intros aux'; discriminate). auto.
       + cbn in Hh. inj Hh s' os a.
         constructor.
         * counts Htr. lia.
         * rewrite Hc. intros Hlt. counts Htr. lia.
         * counts Htr. lia.
-        * rewrite Hc. intros Hend. destruct (Ifull Hend) as [E|E]; [now left | right; auto].
+        * rewrite Hc. intros Hend. full3 Ifull Hend Hq Hue.
         * rewrite Hsubd by (intros aux'; discriminate). auto.
       + destruct d as [|v|e|]; cbn -[Nat.ltb] in Hh; split_ifs Hh; inj Hh s' os a.
         * (* greeting *)
@@ -301,7 +335,7 @@ Section TakeFlow.
           -- rewrite Hc. cbn. intros Hlt. counts Htr. lia.
           -- counts Htr. lia.
           -- rewrite Hc. cbn. intros Hend.
-             destruct (Ifull Hend) as [E|E]; [now left | right; auto].
+             full3 Ifull Hend Hq Hue.
           -- rewrite Hsubd by (intros aux'; discriminate). auto.
         * (* datum passed on *)
           match goal with H : (_ <? _) = true |- _ => apply Nat.ltb_lt in H end.
@@ -310,7 +344,7 @@ Section TakeFlow.
           -- rewrite Hc. cbn. intros Hlt. counts Htr. lia.
           -- counts Htr. lia.
           -- rewrite Hc. cbn. intros Hend.
-             destruct (Ifull Hend) as [E|E]; [exfalso; lia | right; auto].
+             destruct (Ifull Hend) as [E|[E|E]]; [exfalso; lia | right; left; auto | exfalso; destruct (Hq E) as [Hmv _]; discriminate].
           -- rewrite Hsubd by (intros aux'; discriminate). auto.
         * (* datum dropped: the quota is full *)
           match goal with H : (_ <? _) = false |- _ => apply Nat.ltb_ge in H end.
@@ -318,33 +352,53 @@ Section TakeFlow.
           -- counts Htr. lia.
           -- rewrite Hc. intros Hlt. exfalso. lia.
           -- counts Htr. lia.
-          -- rewrite Hc. intros Hend. destruct (Ifull Hend) as [E|E]; [now left | right; auto].
+          -- rewrite Hc. intros Hend. full3 Ifull Hend Hq Hue.
           -- rewrite Hsubd by (intros aux'; discriminate). auto.
-        * constructor.
+        * (* Error of the source after the end was claimed: dropped *)
+          constructor.
           -- counts Htr. lia.
           -- rewrite Hc. intros Hlt. counts Htr. lia.
           -- counts Htr. lia.
-          -- rewrite Hc. intros Hend. destruct (Ifull Hend) as [E|E]; [now left | right; auto].
+          -- rewrite Hc. intros _.
+             destruct (Ifull eq_refl) as [E|[E|E]];
+               [now left | right; left; auto | exfalso; destruct (Hq E) as [Hmv _]; discriminate].
           -- rewrite Hsubd by (intros aux'; discriminate). auto.
-        * constructor.
+        * (* Error of the source: the end is claimed and passed on *)
+          constructor.
+          -- counts Htr. lia.
+          -- rewrite Hc. cbn. intros Hlt. counts Htr. lia.
+          -- counts Htr. lia.
+          -- intros _. right. right. rewrite Hm. apply settle_src_end. right; eauto.
+          -- rewrite Hsubd by (intros aux'; discriminate). auto.
+        * (* Terminate of the source after the end was claimed: dropped *)
+          constructor.
           -- counts Htr. lia.
           -- rewrite Hc. intros Hlt. counts Htr. lia.
           -- counts Htr. lia.
-          -- rewrite Hc. intros Hend. destruct (Ifull Hend) as [E|E]; [now left | right; auto].
+          -- rewrite Hc. intros _.
+             destruct (Ifull eq_refl) as [E|[E|E]];
+               [now left | right; left; auto | exfalso; destruct (Hq E) as [Hmv _]; discriminate].
+          -- rewrite Hsubd by (intros aux'; discriminate). auto.
+        * (* Terminate of the source: the end is claimed and passed on *)
+          constructor.
+          -- counts Htr. lia.
+          -- rewrite Hc. cbn. intros Hlt. counts Htr. lia.
+          -- counts Htr. lia.
+          -- intros _. right. right. rewrite Hm. apply settle_src_end. now left.
           -- rewrite Hsubd by (intros aux'; discriminate). auto.
       + cbn in Hh. destruct d; inj Hh s' os a.
         all: constructor;
           [ counts Htr; lia
           | rewrite Hc; intros Hlt; counts Htr; lia
           | counts Htr; lia
-          | rewrite Hc; intros Hend; destruct (Ifull Hend) as [E|E]; [now left | right; auto]
+          | rewrite Hc; intros Hend; full3 Ifull Hend Hq Hue
           | rewrite Hsubd by (intros aux'; discriminate); auto ].
       + cbn in Hh. inj Hh s' os a.
         constructor;
           [ counts Htr; lia
           | rewrite Hc; intros Hlt; counts Htr; lia
           | counts Htr; lia
-          | rewrite Hc; intros Hend; destruct (Ifull Hend) as [E|E]; [now left | right; auto]
+          | rewrite Hc; intros Hend; full3 Ifull Hend Hq Hue
           | rewrite Hsubd by (intros aux'; discriminate); auto ].
     - destruct (enabled_ret_stack _ _ _ He) as (k & cl & rest & Hst).
       destruct (resume o k (cst c)) as [[s' os] a] eqn:Hres.
@@ -356,7 +410,7 @@ Section TakeFlow.
           [ counts Htr; lia
           | rewrite Hc; intros Hlt; counts Htr; lia
           | counts Htr; lia
-          | rewrite Hc; intros Hend; destruct (Ifull Hend) as [E|E]; [now left | right; auto]
+          | rewrite Hc; intros Hend; full3 Ifull Hend Hq Hue
           | rewrite Hsubd by (intros aux'; discriminate); auto ].
       + (* the n-th delivery returned: take stops the upstream *)
         match goal with H : (_ && _) = true |- _ => apply andb_prop in H; destruct H as [Et Een] end.
@@ -373,13 +427,13 @@ Section TakeFlow.
           [ counts Htr; lia
           | rewrite Hc; intros Hlt; counts Htr; lia
           | counts Htr; lia
-          | rewrite Hc; intros Hend; destruct (Ifull Hend) as [E|E]; [now left | right; auto]
+          | rewrite Hc; intros Hend; full3 Ifull Hend Hq Hue
           | rewrite Hsubd by (intros aux'; discriminate); auto ].
       + constructor;
           [ counts Htr; lia
           | rewrite Hc; intros Hlt; counts Htr; lia
           | counts Htr; lia
-          | rewrite Hc; intros Hend; destruct (Ifull Hend) as [E|E]; [now left | right; auto]
+          | rewrite Hc; intros Hend; full3 Ifull Hend Hq Hue
           | rewrite Hsubd by (intros aux'; discriminate); auto ].
   Qed.
 
@@ -429,7 +483,7 @@ Section TakeFlow.
       rewrite Hsk in Hph. destruct (us (ms c) 0) eqn:Eus; cbn in Hph; try tauto.
       right. exists max. split; [reflexivity|].
       destruct Hph as (Hend & _).
-      destruct (f_full (finv_reach Hr) Hend) as [E|E]; [|congruence].
+      destruct (f_full (finv_reach Hr) Hend) as [E|[E|E]]; [|congruence|congruence].
       now rewrite dout_taken.
     - exact take_calls.
   Qed.
